@@ -432,3 +432,17 @@ impl ProtocolSet {
         })
     }
 }
+
+// ------------------------------------------------------------------------------------------------
+// Address seam: the TCP transport's own multiaddress parser.
+// ------------------------------------------------------------------------------------------------
+
+/// `TcpAddress::multiaddr_to_socket_address` (what `TcpTransport::dial` / `open` parse the address
+/// with), the crate-private result rendered comparable: `(Debug of AddressType, peer)`.
+pub fn tcp_parse_multiaddr(address: &Multiaddr) -> Result<(String, Option<PeerId>), String> {
+    use crate::transport::common::listener::{GetSocketAddr, TcpAddress};
+
+    TcpAddress::multiaddr_to_socket_address(address)
+        .map(|(address_type, peer)| (format!("{address_type:?}"), peer))
+        .map_err(|error| format!("{error:?}"))
+}
